@@ -4,8 +4,8 @@
 
   -- API:
   --   Cx.Impl.ChaCha.Engine σ                  the methods both Rust engines offer (init, rounds, add_back, …)
-  --   Cx.Impl.ChaCha.referenceEngine : Engine W16          src/chacha/reference.rs (AS IS: 16-byte keys are not loaded)
-  --   Cx.Impl.ChaCha.referenceEngineFixed                  the same with the repaired `init`
+  --   Cx.Impl.ChaCha.referenceEngine : Engine W16          src/chacha/reference.rs
+  --   Cx.Impl.ChaCha.referenceEngineOld                    the same with `init` as it was before /repo be8904e (defect a)
   --   Cx.Impl.ChaCha.sse2Engine : Engine Sse2.State        src/chacha/sse2.rs (the engine of x86-64 builds)
   --   Cx.Impl.ChaCha.ChaCha.new  (E) (R) (key nonce : Bytes) : Except String (Ctx σ)     `ChaCha::<R>::new`
   --   Cx.Impl.ChaCha.ChaCha.process_mut (E) (R) (c) (data)  : Except String (Ctx σ × Bytes)
@@ -54,10 +54,14 @@ def initNonce (s : W16) (nonce : Bytes) : Except String W16 :=
     .ok { s with x14 := read_u32_le nonce 0, x15 := read_u32_le nonce 4 }
   else .error "PANIC"
 
-/-- `State::init` AS IS: the `16 =>` arm only stores the constants; state[4..12] stay 0 -/
+/-- `State::init` (as repaired by /repo commit be8904e: the `16 =>` arm loads the key into state[4..8] and again
+    into state[8..12]) -/
 def init (key nonce : Bytes) : Except String W16 :=
   if key.length = 16 then
-    initNonce { W16.zero with x0 := CST16.1, x1 := CST16.2.1, x2 := CST16.2.2.1, x3 := CST16.2.2.2 } nonce
+    initNonce { W16.zero with
+      x0 := CST16.1, x1 := CST16.2.1, x2 := CST16.2.2.1, x3 := CST16.2.2.2,
+      x4 := read_u32_le key 0, x5 := read_u32_le key 4, x6 := read_u32_le key 8, x7 := read_u32_le key 12,
+      x8 := read_u32_le key 0, x9 := read_u32_le key 4, x10 := read_u32_le key 8, x11 := read_u32_le key 12 } nonce
   else if key.length = 32 then
     initNonce { W16.zero with
       x0 := CST32.1, x1 := CST32.2.1, x2 := CST32.2.2.1, x3 := CST32.2.2.2,
@@ -65,13 +69,11 @@ def init (key nonce : Bytes) : Except String W16 :=
       x8 := read_u32_le key 16, x9 := read_u32_le key 20, x10 := read_u32_le key 24, x11 := read_u32_le key 28 } nonce
   else .error "PANIC"   -- unreachable!()
 
-/-- the repaired `init`: the 16-byte key is loaded into state[4..8] and again into state[8..12] -/
-def initFixed (key nonce : Bytes) : Except String W16 :=
+/-- `State::init` BEFORE the repair (defect a): the `16 =>` arm only stored the constants, state[4..12] stayed 0.
+    Kept for the witness theorems. -/
+def initOld (key nonce : Bytes) : Except String W16 :=
   if key.length = 16 then
-    initNonce { W16.zero with
-      x0 := CST16.1, x1 := CST16.2.1, x2 := CST16.2.2.1, x3 := CST16.2.2.2,
-      x4 := read_u32_le key 0, x5 := read_u32_le key 4, x6 := read_u32_le key 8, x7 := read_u32_le key 12,
-      x8 := read_u32_le key 0, x9 := read_u32_le key 4, x10 := read_u32_le key 8, x11 := read_u32_le key 12 } nonce
+    initNonce { W16.zero with x0 := CST16.1, x1 := CST16.2.1, x2 := CST16.2.2.1, x3 := CST16.2.2.2 } nonce
   else init key nonce
 
 /-- one iteration of the loop in `rounds` -/
@@ -252,8 +254,8 @@ def referenceEngine : Engine W16 :=
     set_counter := Reference.set_counter, verif_set_counter64 := Reference.verif_set_counter64,
     increment := Reference.increment, increment64 := Reference.increment64 }
 
-/-- the portable engine with the repaired `init` -/
-def referenceEngineFixed : Engine W16 := { referenceEngine with init := Reference.initFixed }
+/-- the portable engine as it was before the repair of `init` (defect a) -/
+def referenceEngineOld : Engine W16 := { referenceEngine with init := Reference.initOld }
 
 def sse2Engine : Engine Sse2.State :=
   { init := Sse2.init, rounds := Sse2.rounds, add_back := Sse2.add_back,
